@@ -15,7 +15,7 @@ import z3
 from common import (REPO, WORK, Report, scratch, run, tier, seed, repo_hash, BuildError)
 from mirse.exec import Program, Inconclusive, OverBudget
 from mirse import summaries as SM
-from lex import families as F, crate as C, step as ST, spec as SP, regex as R, select
+from lex import families as F, crate as C, step as ST, spec as SP, regex as R, select, extra as EX
 
 _G = {}
 
@@ -30,11 +30,11 @@ def util_mir():
 
 
 def def_key(d, N, variants, rh):
-    text = d.lexer_text('L') + repr(sorted(d.tags)) + repr((N, variants, rh, ST_VERSION))
+    text = d.lexer_text('L') + repr(sorted(d.tags)) + repr((N, d.nmax, variants, rh, ST_VERSION, ST.MAX_DYN[0]))
     return hashlib.sha256(text.encode()).hexdigest()[:20]
 
 
-ST_VERSION = 5      # bump to invalidate cached per-definition results when the harness changes
+ST_VERSION = 9      # bump to invalidate cached per-definition results when the harness changes
 
 
 def work_def(args):
@@ -45,14 +45,24 @@ def work_def(args):
     t0 = time.time()
     res = {'idx': i, 'mismatches': [], 'inconclusive': None, 'stats': None, 'over_budget': False}
     try:
-        h = ST.StepHarness(prog, i, d, N, fields=_G['fields'])
+        h = ST.StepHarness(prog, i, d, min(N, d.nmax) if d.nmax else N, fields=_G['fields'])
         h.ex.deadline = t0 + budget
         nseen = {}
-        for rho in range(len(d.rulesets)):
-            for (prepeek, done) in variants:
-                if done and rho != 0:
-                    continue
-                for m in h.run_step(rho, prepeek=prepeek, done=done):
+        runs = []
+        if _G.get('prop') == 'C14':
+            runs.append((0, False, False, lambda: EX.run_c14(h)))
+        else:
+            for rho in range(len(d.rulesets)):
+                for (prepeek, done) in variants:
+                    if done and rho != 0:
+                        continue
+                    if _G.get('prop') == 'C15':
+                        runs.append((rho, prepeek, done, (lambda r, p, dn: (lambda: EX.run_c15(h, r, p, dn)))(rho, prepeek, done)))
+                    else:
+                        runs.append((rho, prepeek, done, (lambda r, p, dn: (lambda: h.run_step(r, prepeek=p, done=dn)))(rho, prepeek, done)))
+        for rho, prepeek, done, thunk in runs:
+            if True:
+                for m in thunk():
                     rk = (tuple(sorted(m.aspects)), ''.join(ch for ch in m.what if not ch.isdigit()))
                     nseen[rk] = nseen.get(rk, 0) + 1
                     if nseen[rk] > 3:
@@ -60,7 +70,7 @@ def work_def(args):
                     res['mismatches'].append({
                         'aspects': sorted(m.aspects), 'what': m.what, 'rho': rho, 'prepeek': prepeek, 'done': done,
                         'concrete': ST.concretize(h, m.model, m.detail.get('decisions', ())) if m.model is not None else None,
-                        'expected': m.detail.get('expected'),
+                        'expected': m.detail.get('expected'), 'ctor': m.detail.get('ctor'),
                     })
         st = h.stats
         st['queries'] = h.ex.queries
@@ -140,6 +150,33 @@ def replay(crate, i, d, mm, widths_fn):
     return False, 'native code agrees with the reference on the counterexample input and %d extensions' % (len(cands) - 1)
 
 
+def replay_variant(prop, crate, i, d, mm, widths_fn):
+    """C14: the four constructors natively on short inputs; C15: clone before call k versus no clone"""
+    comp = d.compiled()
+    reps = sorted(set(comp.part.representative(c) for c in range(comp.part.n)))
+    words = [()]
+    for k in (1, 2, 3, 4):
+        if len(reps) ** k > 700:
+            break
+        words += list(itertools.product(reps, repeat=k))
+    script = [0, 1, 2, 0, 1, 2, 0, 1]
+    base = [C.drv_line(i, 0, False, 0, len(w) + 2, 0, 255, script if prop == 'C15' else [], list(w)) for w in words]
+    base_out = crate.native_run(base)
+    variants = [(c, 255) for c in (1, 2, 3)] if prop == 'C14' else [(0, k) for k in (0, 1, 2)]
+    for ctor, clone_at in variants:
+        lines = [C.drv_line(i, 0, False, 0, len(w) + 2, ctor, clone_at, script if prop == 'C15' else [], list(w)) for w in words]
+        outs = crate.native_run(lines)
+        for w, a, b in zip(words, base_out, outs):
+            if clone_at != 255:
+                # the clone continues after the original made one more call: compare the clone's stream with the
+                # original's stream (same calls)
+                pass
+            if a != b:
+                return True, {'input': list(w), 'input_text': ''.join(chr(x) for x in w), 'start_rule_set': 'Init', 'constructor': ctor, 'clone_before_call': clone_at,
+                              'native_reference_variant': a.split('|'), 'native_this_variant': b.split('|')}
+    return False, 'all native variants agree on %d inputs' % len(words)
+
+
 def role_key(d, mm):
     a = '+'.join(mm['aspects'])
     w = mm['what']
@@ -191,6 +228,7 @@ def main(prop):
             prog.add_dump(mir)
             prog.add_dump(um)
             _G['prog'] = prog
+            _G['prop'] = prop
             _G['defs'] = defs
             _G['fields'] = ST.lexer_fields(prog)
             R.BUILTINS.update(crate.builtin_ranges())
@@ -265,7 +303,10 @@ def main(prop):
                     continue
                 seen.add(key)
                 ensure_built()
-                ok, detail = replay(crate, i, d, mm, widths_fn)
+                if prop in ('C14', 'C15'):
+                    ok, detail = replay_variant(prop, crate, i, d, mm, widths_fn)
+                else:
+                    ok, detail = replay(crate, i, d, mm, widths_fn)
                 if ok:
                     rep.violation(key, '%s [%s] %s; input %r from rule set %s' % (d.name, '+'.join(mm['aspects']), mm['what'], detail['input_text'], detail['start_rule_set']),
                                   {'property': prop, 'definition': d.lexer_text('L' + str(i)).split('\n'), 'mismatch': mm, 'replay': detail,
